@@ -270,7 +270,7 @@ def run_sorting(spec, ctx):
 
     def ev(src):
         env = ckl.functions.Environment()
-        return observe(lambda: it.interpret(src, "c07", env), 2000000)
+        return observe(lambda: it.interpret(src, "c07", env), 2000000 + 600 * len(src))
 
     for _ in range(spec["n"]):
         kind = r.choice(["num", "num", "str", "bool", "date", "list"])
@@ -287,6 +287,8 @@ def run_sorting(spec, ctx):
         if any(not rv.same_order_kind(x, y) for x in items for y in items):
             continue
         form = r.randrange(8)
+        if len(items) > 16 and form >= 5:
+            form = r.randrange(5)        # long inputs go to the plain / key / cmp sorts and the enumerations
         ctx.case(("sort", form, tuple(items)), nontrivial=len(items) > 1)
         if form in (5, 6):
             # sets / maps that were enumerated, then edited in place (members added and removed without a read in
@@ -352,7 +354,7 @@ def run_sorting(spec, ctx):
             continue
         if form == 7:
             # key / cmp functions that sort something themselves while the outer sort is running
-            tags_ = r.sample(range(100), len(items))      # (not ascending: a tie broken by comparing the pairs themselves shows)
+            tags_ = r.sample(range(max(100, 3 * len(items))), len(items))      # (not ascending: a tie broken by comparing the pairs themselves shows)
             pairs = [("list", (x, ("int", tags_[i]))) for i, x in enumerate(items)]
             lit = "[%s]" % ", ".join(gv.to_source(p_, r) for p_ in pairs)
             inner = "[%s]" % ", ".join(str(r.randint(0, 9)) for _ in range(r.choice([0, 1, 2, 3, 5, 8, 13])))
@@ -389,7 +391,7 @@ def run_sorting(spec, ctx):
                 ctx.violation("C07:sorted:plain:" + kind, "%s -> %s: %s" % (src, core.safe_str(o.value), bad), {"src": src})
         elif form in (1, 2):
             # [key, tag] pairs sorted by key function; tags witness stability
-            tags_ = r.sample(range(100), len(items))      # (not ascending: a tie broken by comparing the pairs themselves shows)
+            tags_ = r.sample(range(max(100, 3 * len(items))), len(items))      # (not ascending: a tie broken by comparing the pairs themselves shows)
             pairs = [("list", (x, ("int", tags_[i]))) for i, x in enumerate(items)]
             lit = "[%s]" % ", ".join(gv.to_source(p, r) for p in pairs)
             if form == 1:
